@@ -328,14 +328,30 @@ def _aslist(x):
     return x if isinstance(x, list) else [x]
 
 
-_CACHE = {}
+def _cache(prog):
+    """per-Program cache (stored on the Program object: a cache keyed by id(prog) can hand out functions of a freed
+    Program whose id was reused by a later one when variants are analysed one after another in one worker process)"""
+    c = getattr(prog, '_inline_cache', None)
+    if c is None:
+        c = prog._inline_cache = {}
+    return c
+
+
+class _Legacy:
+    """kept so that `_inline._CACHE.clear()` in rule modules stays harmless"""
+
+    def clear(self):
+        pass
+
+
+_CACHE = _Legacy()
 
 
 def inlined(prog, func: Func, depth=2) -> Func:
     """pseudo Func with same-module helpers inlined (cached per program/function)"""
     key = (id(prog), func.qname, depth)
-    if key in _CACHE:
-        return _CACHE[key]
+    if key in _cache(prog):
+        return _cache(prog)[key]
     node = copy.deepcopy(func.node)
     inl = Inliner(prog, func, depth)
     node.body = inl.block(node.body, (func.qname,), depth)
@@ -343,7 +359,7 @@ def inlined(prog, func: Func, depth=2) -> Func:
     f2 = Func(func.qname, node, func.module, func.cls, func.parent)
     f2.children = func.children
     f2.inlined_from = sorted(set(inl.inlined))
-    _CACHE[key] = f2
+    _cache(prog)[key] = f2
     return f2
 
 
@@ -361,11 +377,13 @@ def dealiased(prog, func: Func, keys=('todo', 'doing', 'do')) -> Func:
     """pseudo Func in which locals bound exactly once to `<name>.get('<key>'[, default])` are replaced by that expression
     (the sets are shared mutable objects, so the alias denotes the same set)"""
     key = (id(prog), func.qname, 'dealias', id(func.node))
-    if key in _CACHE:
-        return _CACHE[key]
+    if key in _cache(prog):
+        return _cache(prog)[key]
     counts, vals = {}, {}
+    # comprehension targets live in their own scope: a `job` bound inside `{j.tag: j for job in que}` is another variable
+    comp_scoped = {id(t) for c in func.own_nodes() if isinstance(c, (ast.ListComp, ast.SetComp, ast.DictComp, ast.GeneratorExp)) for g in c.generators for t in ast.walk(g.target)}
     for n in func.own_nodes():
-        if isinstance(n, ast.Name) and isinstance(n.ctx, ast.Store):
+        if isinstance(n, ast.Name) and isinstance(n.ctx, ast.Store) and id(n) not in comp_scoped:
             counts[n.id] = counts.get(n.id, 0) + 1
         if isinstance(n, ast.Assign) and len(n.targets) == 1 and isinstance(n.targets[0], ast.Name):
             v = n.value
@@ -402,14 +420,14 @@ def dealiased(prog, func: Func, keys=('todo', 'doing', 'do')) -> Func:
                 if any(n is s for s in func.node.body):
                     mapping[name] = v
     if not mapping:
-        _CACHE[key] = func
+        _cache(prog)[key] = func
         return func
     node = copy.deepcopy(func.node)
     node = _Dealias(mapping).visit(node)
     ast.fix_missing_locations(node)
     f2 = Func(func.qname, node, func.module, func.cls, func.parent)
     f2.children = func.children
-    _CACHE[key] = f2
+    _cache(prog)[key] = f2
     return f2
 
 
